@@ -563,7 +563,7 @@ read_bitmap(kdump_ctx_t *ctx, struct pfn_file_map *pdmap,
 	    int32_t sub_hdr_size, int32_t bitmap_blocks)
 {
 	struct disk_dump_priv *ddp = ctx->shared->fmtdata;
-	off_t off = (1 + sub_hdr_size) * get_page_size(ctx);
+	off_t off = ((off_t)1 + sub_hdr_size) * get_page_size(ctx);
 	off_t descoff;
 	size_t bitmapsize;
 	kdump_pfn_t max_bitmap_pfn;
@@ -803,7 +803,13 @@ do_header_32(struct setup_data *sdp, struct disk_dump_header_32 *dh,
 		if (ret != KDUMP_OK)
 			break;
 
-		sdp->sub_hdr_blocks = dump32toh(ctx, dh->sub_hdr_size);
+		sdp->sub_hdr_blocks = (int32_t) dump32toh(ctx, dh->sub_hdr_size);
+		if (sdp->sub_hdr_blocks < 0) {
+			ret = set_error(ctx, KDUMP_ERR_CORRUPT,
+					"Invalid sub-header size: %ld",
+					(long) sdp->sub_hdr_blocks);
+			break;
+		}
 		ret = read_sub_hdr_32(sdp, pdmap);
 		if (ret != KDUMP_OK)
 			break;
@@ -934,7 +940,13 @@ do_header_64(struct setup_data *sdp, struct disk_dump_header_64 *dh,
 		if (ret != KDUMP_OK)
 			break;
 
-		sdp->sub_hdr_blocks = dump32toh(ctx, dh->sub_hdr_size);
+		sdp->sub_hdr_blocks = (int32_t) dump32toh(ctx, dh->sub_hdr_size);
+		if (sdp->sub_hdr_blocks < 0) {
+			ret = set_error(ctx, KDUMP_ERR_CORRUPT,
+					"Invalid sub-header size: %ld",
+					(long) sdp->sub_hdr_blocks);
+			break;
+		}
 		ret = read_sub_hdr_64(sdp, pdmap);
 		if (ret != KDUMP_OK)
 			break;
